@@ -298,6 +298,16 @@ package bsonkit
 //@   modifies *doc
 //@   ensures (err == nil) == (value != spec.VMissing && spec.putOK(old(*doc), path, value, prepend))
 //@   ensures imp(err == nil, *doc == spec.putPath(old(*doc), path, value, prepend) && result0 == old(spec.getPath(*doc, path)))
+//@ func IndexedPath
+//@   trusted
+//@   pure
+// path.go: the size of a path builder is a length computed by its callers
+// (make panics for a negative size, as documented for make itself)
+//@ func NewPathBuilder
+//@   tags C20 C11
+//@   requires [C20 name=non-negative-size] buffer >= 0
+//@   modifies nothing
+//@   ensures [C20,C11] result != nil && fresh(result) && len(result.buf) == buffer && result.len == 0
 //@ func Unset
 //@   trusted
 //@   uses access
